@@ -249,7 +249,36 @@ func validate(u gen.Universe, root [2]string) (obs, exp string, st stats, status
 						staleEdges++
 						continue
 					}
-					return fmt.Sprintf("%s@%s: requirement %s@%q is guarded by a marker that is false here (%s, extras %v) but has an edge", n.Version.Name, n.Version.Version, r.Name, r.Version, r.Type, keys(extras[i])), "requirements whose marker is false contribute nothing", st, "ok", nil
+					note := ""
+					if strings.HasPrefix(truth, "extra:") {
+						// who asks for that extra? a version that is no longer in the graph
+						// (its pin was replaced) leaves the request behind
+						want := strings.TrimPrefix(truth, "extra:")
+						inGraph := map[string]bool{}
+						for _, gn := range g.Nodes {
+							inGraph[gn.Version.Name+"@"+gn.Version.Version] = true
+						}
+						for _, p := range sch.Packages {
+							for _, pv := range p.Versions {
+								if inGraph[p.Name+"@"+pv.Version] || note != "" {
+									continue
+								}
+								for _, pr := range pv.Requirements {
+									if pr.Name != n.Version.Name {
+										continue
+									}
+									if ed, ok := pr.Type.GetAttr(dep.EnabledDependencies); ok {
+										for _, x := range strings.Split(ed, ",") {
+											if strings.TrimSpace(x) == want {
+												note = fmt.Sprintf(" %s %s@%s, which is not in the graph)", staleExtraNote, p.Name, pv.Version)
+											}
+										}
+									}
+								}
+							}
+						}
+					}
+					return fmt.Sprintf("%s@%s: requirement %s@%q is guarded by a marker that is false here (%s, extras %v) but has an edge%s", n.Version.Name, n.Version.Version, r.Name, r.Version, r.Type, keys(extras[i]), note), "requirements whose marker is false contribute nothing", st, "ok", nil
 				}
 				continue
 			}
@@ -384,7 +413,17 @@ var preLiteral = regexp.MustCompile(`[0-9](a|b|rc|\.dev)[0-9]`)
 // SelfRequirementWithExtras: a version that requires its own package with
 // extras (c requires c[x,y]) gets the self edge but the extras are not applied
 // to it, so requirements guarded by extra == "x" have no edge.
+const staleExtraNote = "(the extra is requested only by"
+
+// StaleExtraAfterRepin: extras are accumulated per package; when the version
+// that asked for an extra is replaced and drops out of the graph, the extra
+// stays, and the dependencies it enables are kept although nothing in the
+// final graph asks for it (in pip the package with extras is a candidate of
+// its own and disappears with its requester).
 func knownClass(obs string, u gen.Universe) string {
+	if strings.Contains(obs, "is guarded by a marker that is false here") && strings.Contains(obs, staleExtraNote) && kf.Open("C08", "StaleExtraAfterRepin") {
+		return "StaleExtraAfterRepin"
+	}
 	if m := nodeRE.FindStringSubmatch(obs); m != nil && strings.Contains(obs, "has no edge") && kf.Open("C08", "SelfRequirementWithExtras") {
 		for _, p := range u.Pkgs {
 			if p.Name != m[1] {
